@@ -2,8 +2,8 @@
    SnapshotDone (fsmSnapshotDone: commit the snapshot of an applied position, trim the log), with a crash after either
    durable write followed by newCore: the logical log does not change, the ghost prefix grows by what was trimmed. *)
 From Coq Require Import List NArith ZArith Bool Lia ZifyN ZifyNat ZifyBool.
-From BLB Require Import Raft.Core Raft.NodeProofs Raft.NodeKeep Raft.NodeElect Raft.LogMatchLists Raft.CommitCount Raft.LogMatchNode
-  Raft.SnapContig Raft.LogMatchNodeS.
+From BLB Require Import Lib.LTS Raft.Core Raft.Wire Raft.NodeProofs Raft.NodeKeep Raft.NodeElect Raft.NodeConf Raft.Election Raft.ElectionFixed
+  Raft.LogMatchLists Raft.CommitCount Raft.LogMatchNode Raft.LogMatch Raft.SMSafetyNode Raft.SnapContig Raft.LogMatchNodeS Raft.SnapVirtual.
 Import ListNotations.
 Open Scope N_scope.
 
@@ -11,46 +11,6 @@ Open Scope N_scope.
 Definition legitS (C : list entry) (s : node) (m : snapmeta) : Prop :=
   1 <= sn_index m /\ sn_index m <= n_commit s /\ sn_index m <= N.of_nat (length (C ++ p_log (n_p s))) /\
   term_at (C ++ p_log (n_p s)) (sn_index m) (sn_term m).
-
-(* stores that agree on everything but the log / snapshot split *)
-Definition same_pv (p p' : pstate) : Prop :=
-  p_term p' = p_term p /\ p_vote p' = p_vote p /\ p_guid p' = p_guid p /\ p_guids p' = p_guids p.
-
-Lemma shape_snap C p cm m :
-  shape C p cm -> 1 <= sn_index m -> sn_index m <= cm -> sn_index m <= N.of_nat (length (C ++ p_log p)) ->
-  term_at (C ++ p_log p) (sn_index m) (sn_term m) -> N.of_nat (length C) <= sn_index m ->
-  shape C (apply_mut p (MSnapCommit m)) cm.
-Proof.
-  intros [W _] H1 H2 H3 H4 H5. unfold shape. simpl. split; [exact W|]. repeat split; auto.
-Qed.
-
-Lemma shape_trim C p cm m u :
-  shape C p cm -> p_snap p = Some m -> u <= sn_index m -> N.of_nat (length C) <= u ->
-  let n := N.to_nat (u - N.of_nat (length C)) in
-  (C ++ firstn n (p_log p)) ++ p_log (apply_mut p (MTrim u)) = C ++ p_log p /\
-  shape (C ++ firstn n (p_log p)) (apply_mut p (MTrim u)) cm.
-Proof.
-  intros Sh Es Hu Hc n. pose proof Sh as [W Sx]. rewrite Es in Sx. destruct Sx as [S1 [S2 [S3 [S4 S5]]]].
-  destruct (shape_phys _ _ _ Sh) as [_ Wp].
-  assert (Ht : mem_trim u (p_log p) = skipn n (p_log p)).
-  { rewrite (mem_trim_from _ _ _ Wp). f_equal. unfold n. lia. }
-  assert (Hn : (n <= length (p_log p))%nat) by (unfold n; rewrite app_length in S2; lia).
-  assert (HL : (C ++ firstn n (p_log p)) ++ skipn n (p_log p) = C ++ p_log p) by (rewrite <- app_assoc, firstn_skipn; reflexivity).
-  change (p_log (apply_mut p (MTrim u))) with (mem_trim u (p_log p)). rewrite Ht. split; [exact HL|].
-  unfold shape. change (p_log (apply_mut p (MTrim u))) with (mem_trim u (p_log p)).
-  change (p_snap (apply_mut p (MTrim u))) with (p_snap p). rewrite Ht, Es, HL. split; [exact W|].
-  rewrite app_length, firstn_length, Nat.min_l by exact Hn. repeat split; auto. unfold n. lia.
-Qed.
-
-Definition vols (s0 x : node) : Prop :=
-  n_id x = n_id s0 /\ n_cfg x = n_cfg s0 /\ n_role x = n_role s0 /\ n_conf x = n_conf s0 /\ n_commit x = n_commit s0 /\
-  l_peers x = l_peers s0 /\ n_msgs x = n_msgs s0.
-
-Lemma same_pv_refl p : same_pv p p.
-Proof. unfold same_pv. auto. Qed.
-
-Lemma vols_refl s : vols s s.
-Proof. unfold vols. repeat split; reflexivity. Qed.
 
 Definition sd_out (C : list entry) (s0 : node) (r : R node) : Prop :=
   match r with
@@ -61,11 +21,14 @@ Definition sd_out (C : list entry) (s0 : node) (r : R node) : Prop :=
   end.
 
 Lemma snapshot_done_out C s0 m :
-  shape C (n_p s0) (n_commit s0) -> legitS C s0 m -> sd_out C s0 (snapshot_done s0 m).
+  shape C (n_p s0) (n_commit s0) ->
+  (match p_snap (n_p s0) with Some cur => sn_index m <=? sn_index cur | None => false end = false -> legitS C s0 m) ->
+  sd_out C s0 (snapshot_done s0 m).
 Proof.
-  intros Sh [L1 [L2 [L3 L4]]]. unfold snapshot_done.
+  intros Sh Lg. unfold snapshot_done.
   destruct (match p_snap (n_p s0) with Some cur => sn_index m <=? sn_index cur | None => false end) eqn:En.
   { simpl. exists C. split; [reflexivity|]. split; [exact Sh|]. split; [apply same_pv_refl | apply vols_refl]. }
+  destruct (Lg eq_refl) as [L1 [L2 [L3 L4]]].
   assert (HC : N.of_nat (length C) <= sn_index m).
   { pose proof Sh as [_ Sx]. destruct (p_snap (n_p s0)) as [cur |].
     - apply N.leb_gt in En. lia.
@@ -98,4 +61,215 @@ Proof.
   destruct (do_mut_cases (MTrim u) s1) as [E2 | E2]; rewrite E2.
   - simpl. exists (C ++ firstn n (p_log (n_p s0))). split; [exact HL|]. split; [exact Sh2 | exact Pv2].
   - simpl. exists (C ++ firstn n (p_log (n_p s0))). split; [exact HL|]. split; [exact Sh2|]. split; [exact Pv2 | unfold vols; simpl; repeat split; reflexivity].
+Qed.
+
+Lemma commit_up_to_log s i s1 : commit_up_to s i = Ret s1 -> p_log (n_p s1) = p_log (n_p s).
+Proof.
+  unfold commit_up_to.
+  match goal with |- (match ?x with _ => _ end) = _ -> _ => destruct x as [m |] end.
+  - destruct (negb (sn_index m =? i)); [discriminate|]. intro H. inversion H. reflexivity.
+  - destruct (log_entries (n_p s) (n_commit s + 1) (i + 1)) as [ents | |]; simpl; try discriminate.
+    match goal with |- (if ?c then _ else _) = _ -> _ => destruct c end.
+    + match goal with |- (match ?x with _ => _ end) = _ -> _ => destruct x end; [| discriminate].
+      unfold do_mut. match goal with |- (if ?c then _ else _) = _ -> _ => destruct c end; [discriminate|].
+      intro H. inversion H. reflexivity.
+    + intro H. inversion H. reflexivity.
+Qed.
+
+Lemma new_core_log C' id cfg p cm z : shape C' p cm -> new_core id cfg p = Ret z -> p_log (n_p z) = p_log p.
+Proof.
+  intros Sh. unfold new_core. rewrite (reconcile_keep C' id cfg p cm Sh). cbv beta iota delta [bind]. simpl n_p.
+  destruct (p_snap p) as [mm |].
+  - destruct (commit_up_to _ (sn_index mm)) as [y | |] eqn:Ey; simpl; try discriminate.
+    apply commit_up_to_log in Ey. intro H. inversion H. simpl. rewrite Ey. reflexivity.
+  - simpl. intro H. inversion H. reflexivity.
+Qed.
+
+(* ---------------------------------------------------------------- SnapshotDone as an abstract step of the virtual node *)
+Definition rtF (idx t : N) : Prop := False.
+
+Lemma fake_initial C C' s0 lg' :
+  C' ++ lg' = C ++ p_log (n_p s0) ->
+  vn C' (upd_p s0 (set_log (n_p s0) lg') (n_cnt s0) (n_muts s0)) = vn C s0.
+Proof. intro H. unfold vn, vp, upd_p, set_log. simpl. rewrite H. reflexivity. Qed.
+
+Theorem snapdone_nstep C s m k crashed st s' :
+  base (vn C s) -> shape C (n_p s) (n_commit s) ->
+  (match p_snap (n_p s) with Some cur => sn_index m <=? sn_index cur | None => false end = false -> legitS C s m) ->
+  run_event_crash (settle s) (ESnapDone m) k = Ret (crashed, st, s') ->
+  exists C', C' ++ p_log (n_p s') = C ++ p_log (n_p s) /\ shape C' (n_p s') (n_commit s') /\
+             nstep (vn C s) ETick k (vn C' s').
+Proof.
+  intros Hb Sh Lg Hrun.
+  destruct (step_facts _ _ _ _ _ _ Hrun) as [Hid [Hpx [Hm Hs]]].
+  assert (Hrest : forall C', inv (with_budget (settle (vn C s)) k) (inp_of ETick) (boot_of ETick) (rt_of ETick) (vq_of ETick)
+                               (lq_of (vn C s)) (dc_of ETick) (rsp_of ETick) (vn C' s') -> nstep (vn C s) ETick k (vn C' s')).
+  { intros C' NI. constructor; auto.
+    - apply msgs_ok_vn. exact Hm.
+    - intros m0 E. discriminate. }
+  revert Hrun. unfold run_event_crash. set (s0 := with_budget (settle s) k).
+  assert (Sh0 : shape C (n_p s0) (n_commit s0)) by exact Sh.
+  assert (Lg0 : match p_snap (n_p s0) with Some cur => sn_index m <=? sn_index cur | None => false end = false -> legitS C s0 m) by exact Lg.
+  pose proof (snapshot_done_out C s0 m Sh0 Lg0) as Out.
+  simpl run_event. unfold wrap0.
+  set (v0 := with_budget (settle (vn C s)) k).
+  assert (Hb0 : base v0) by (unfold base in *; simpl; exact Hb).
+  assert (I0 : inv v0 None None (rt_of ETick) (vq_of ETick) (lq_of (vn C s)) (dc_of ETick) (rsp_of ETick) v0).
+  { apply inv_start; [exact Hb0 | reflexivity]. }
+  destruct (snapshot_done s0 m) as [x | c | p]; simpl in Out |- *; try discriminate.
+  - destruct Out as [C' [HL [Sh' [Pv [V1 [V2 [V3 [V4 [V5 [V6 V7]]]]]]]]]].
+    intro H. inversion H. subst. exists C'. split; [exact HL|]. split; [simpl; rewrite V5; exact Sh'|].
+    apply Hrest. simpl inp_of. simpl boot_of.
+    destruct Pv as [P1 [P2 [P3 P4]]].
+    eapply inv_frame with (s := v0); [exact I0 | | | | | | | | |].
+    + simpl. exact HL.
+    + reflexivity.
+    + simpl. exact P1.
+    + left. simpl. exact V3.
+    + left. simpl. exact V4.
+    + simpl. exact V5.
+    + simpl. exact V6.
+    + simpl. exact V1.
+    + exists []. simpl. rewrite V7. split; [reflexivity|]. split; [constructor|]. split; [left; constructor | constructor].
+  - destruct Out as [C' [HL [Sh' [P1 [P2 [P3 P4]]]]]].
+    set (f0 := upd_p s0 (set_log (n_p s0) (p_log p)) (n_cnt s0) (n_muts s0)).
+    assert (Hf : vn C' f0 = vn C s0) by (apply fake_initial; exact HL).
+    assert (Hq : forall t, p_term (n_p (vn C' f0)) < t -> lq_of (vn C s) (p_log (n_p (vn C' f0))) t).
+    { rewrite Hf. intros t Ht. split; [reflexivity | exact Ht]. }
+    assert (PS : pS C' f0 None None p).
+    { split.
+      - pose proof Hb as [_ [_ [Bn1 _]]]. constructor.
+        + reflexivity.
+        + apply (proj1 Sh').
+        + simpl. rewrite HL. destruct Bn1 as [[X _] | X]; [left; exact X | right; rewrite P1; exact X].
+        + simpl. rewrite P1. apply N.le_refl.
+        + unfold LR. cbv zeta. left. reflexivity.
+      - exists (n_commit s0). split; [exact Sh' | apply N.le_refl]. }
+    pose proof (postS_new_core C' f0 None None (rt_of ETick) (vq_of ETick) (lq_of (vn C s)) Hq (dc_of ETick) (rsp_of ETick)
+                  (n_id s) (n_cfg s) p PS) as Q.
+    destruct (new_core (n_id s) (n_cfg s) p) as [z | |] eqn:En; simpl in *; try discriminate.
+    intro H. inversion H. subst. destruct Q as [Iz Sz].
+    assert (HLz : C' ++ p_log (n_p s') = C ++ p_log (n_p s)).
+    { rewrite (new_core_log C' (n_id s) (n_cfg s) p (n_commit s0) s' Sh' En). exact HL. }
+    exists C'. split; [exact HLz|]. split.
+    + apply (shape_cm C' (n_p s') (cmS f0 s')); [exact Sz|]. intros mm Hmm. destruct Sz as [_ S2]. rewrite Hmm in S2. unfold cmS in S2. lia.
+    + apply Hrest. rewrite Hf in Iz. exact Iz.
+Qed.
+
+(* ---------------------------------------------------------------- InstallSnapshot delivery as an abstract step of the virtual node *)
+Lemma esum_other s s' m om' : esum s s' (Some m) -> m_body m <> VoteResp true -> esum s s' om'.
+Proof.
+  intros H Hb Hr. destruct (H Hr) as [A [B D]]. split; [| split; [exact B | exact D]].
+  intros v Hv. destruct (A v Hv) as [X | [X | [m0 [E [Y _]]]]]; [left; exact X | right; left; exact X|].
+  inversion E. subst m0. contradiction.
+Qed.
+
+Theorem install_nstep C s m li lt cf Cs k crashed st s' :
+  base (vn C s) -> shape C (n_p s) (n_commit s) -> m_body m = InstallSnap li lt cf ->
+  (p_term (n_p s) <= m_term m -> premV C (with_budget (settle (vn C s)) k) (n_p s) (m_term m) Cs li lt) ->
+  run_event_crash (settle s) (EDeliver m) k = Ret (crashed, st, s') ->
+  exists C', nstep (vn C s) (EDeliver (vmsg m Cs li)) k (vn C' s') /\ shape C' (n_p s') (n_commit s') /\
+             incl C' (C ++ p_log (n_p s) ++ Cs).
+Proof.
+  intros Hb Sh Hbody Hp Hrun.
+  destruct (install_snapshot_lm_S C s m li lt cf Cs k crashed st s' Hb Sh Hbody Hp Hrun) as [C' [NI [Sh' Hi']]].
+  exists C'. split; [| split; [exact Sh' | exact Hi']].
+  destruct (step_facts _ _ _ _ _ _ Hrun) as [Hid [Hpx [Hm Hs]]].
+  constructor.
+  - exact Hid.
+  - exact Hpx.
+  - apply msgs_ok_vn. exact Hm.
+  - simpl in Hs. simpl. eapply esum_other; [exact Hs|]. rewrite Hbody. discriminate.
+  - intros m0 Em. inversion Em. subst m0. destruct (deliver_term _ _ _ _ _ _ Hrun) as [D | D]; [left; simpl; rewrite D; reflexivity | right; exact D].
+  - exact NI.
+Qed.
+
+(* ---------------------------------------------------------------- nothing is handed to the state machine by SnapshotDone or by
+   a completed InstallSnapshot delivery (the commit index moves by "restore", without entries) *)
+Lemma do_mut_c m s x : do_mut m s = Ret x -> n_commits x = n_commits s /\ n_commit x = n_commit s /\ n_p x = apply_mut (n_p s) m.
+Proof.
+  unfold do_mut. destruct (negb (n_budget s =? 0) && (n_budget s =? n_cnt s + 1)); [discriminate|]. intro H. inversion H. simpl. auto.
+Qed.
+
+Lemma trim_log_c s i x : trim_log s i = Ret x -> n_commits x = n_commits s /\ n_commit x = n_commit s /\ p_snap (n_p x) = p_snap (n_p s).
+Proof.
+  unfold trim_log. destruct (log_first (p_log (n_p s))); [| intro H; inversion H; auto].
+  destruct (log_last (p_log (n_p s))); [| intro H; inversion H; auto].
+  destruct (i =? n - 1); [intro H; inversion H; auto|]. destruct ((i <? n) || (n0 <? i)); [discriminate|].
+  destruct (i - n <? cf_keep (n_cfg s)); [intro H; inversion H; auto|].
+  intro H. apply do_mut_c in H. destruct H as [A [B D]]. rewrite A, B, D. simpl. auto.
+Qed.
+
+Lemma snapshot_done_c s m x : snapshot_done s m = Ret x -> n_commits x = n_commits s.
+Proof.
+  unfold snapshot_done. match goal with |- (if ?c then _ else _) = _ -> _ => destruct c end; [intro H; inversion H; reflexivity|].
+  destruct (do_mut (MSnapCommit m) s) as [s1 | |] eqn:E; simpl; try discriminate. apply do_mut_c in E. destruct E as [A _].
+  intro H. apply trim_log_c in H. destruct H as [B _]. congruence.
+Qed.
+
+Lemma handle_snapshot_c s from li lt c x : handle_snapshot s from li lt c = Ret x -> n_commits x = n_commits s.
+Proof.
+  unfold handle_snapshot. set (sc := set_follower_contact s).
+  match goal with |- (match ?y with _ => _ end) = _ -> _ => destruct y end; [intro H; inversion H; reflexivity|].
+  set (M := {| sn_index := li; sn_term := lt; sn_conf := Some c |}).
+  destruct (do_mut (MSnapCommit M) sc) as [s1 | |] eqn:E1; simpl; try discriminate. apply do_mut_c in E1. destruct E1 as [A1 [B1 P1]].
+  change (n_commits sc) with (n_commits s) in A1.
+  destruct (in_log (n_p s1) li lt) as [il | |]; simpl; try discriminate.
+  assert (H2 : forall s2, (if il then trim_log s1 li else s' <- do_mut (MTruncate 0) s1;; Ret (set_conf s' (Some c))) = Ret s2 ->
+             n_commits s2 = n_commits s1 /\ p_snap (n_p s2) = Some M).
+  { intros s2. destruct il.
+    - intro H. apply trim_log_c in H. destruct H as [X [_ Z]]. split; [exact X|]. rewrite Z, P1. reflexivity.
+    - destruct (do_mut (MTruncate 0) s1) as [y | |] eqn:E2; simpl; try discriminate. apply do_mut_c in E2. destruct E2 as [X [_ Z]].
+      intro H. inversion H. subst. simpl. split; [exact X|]. rewrite Z, P1. reflexivity. }
+  destruct (if il then trim_log s1 li else s' <- do_mut (MTruncate 0) s1;; Ret (set_conf s' (Some c))) as [s2 | |]; simpl; try discriminate.
+  destruct (H2 s2 eq_refl) as [A2 S2].
+  destruct (n_commit s2 <? li) eqn:E3.
+  - unfold commit_up_to. rewrite S2. simpl. rewrite E3. rewrite N.eqb_refl. simpl. intro H. inversion H. simpl. congruence.
+  - simpl. intro H. inversion H. simpl. congruence.
+Qed.
+
+Lemma handle_msg_install_c s m li lt c x :
+  m_body m = InstallSnap li lt c -> handle_msg s m = Ret x -> n_commits x = n_commits s.
+Proof.
+  intro Hb. unfold handle_msg.
+  match goal with |- (if ?c then _ else _) = _ -> _ => destruct c end; [intro H; inversion H; reflexivity|].
+  match goal with |- (if ?c then _ else _) = _ -> _ => destruct c end; [intro H; inversion H; reflexivity|].
+  match goal with |- bind ?a _ = _ -> _ => destruct a as [s1 | |] eqn:E1 end; simpl; try discriminate.
+  assert (A1 : n_commits s1 = n_commits s).
+  { destruct (guid_get (m_from m) (p_guids (n_p s)) =? 0); [apply do_mut_c in E1; tauto | inversion E1; reflexivity]. }
+  match goal with |- (if ?c then _ else _) = _ -> _ => destruct c end; [intro H; inversion H; congruence|].
+  destruct (m_term m <? p_term (n_p s1)); [intro H; inversion H; congruence|].
+  assert (Hrole : forall s2, n_commits s2 = n_commits s -> handle_by_role s2 m = Ret x -> n_commits x = n_commits s).
+  { intros s2 A2. unfold handle_by_role. destruct (n_role s2).
+    - unfold handle_follower. rewrite Hb.
+      destruct (follower_note_leader s2 (m_from m)) as [s3 | |] eqn:E3; simpl; try discriminate.
+      apply SMSafetyNode.follower_note_leader_commits in E3. intro H. apply handle_snapshot_c in H. congruence.
+    - unfold handle_candidate. rewrite Hb. intro H. inversion H. simpl. exact A2.
+    - unfold handle_leader. rewrite Hb. discriminate. }
+  destruct (p_term (n_p s1) <? m_term m).
+  - rewrite Hb. destruct (do_mut (MSaveState (m_from m) (m_term m)) s1) as [s' | |] eqn:E2; simpl; try discriminate.
+    apply do_mut_c in E2. destruct E2 as [X _]. apply Hrole. simpl. congruence.
+  - simpl. apply Hrole. exact A1.
+Qed.
+
+Theorem applied_in_own_log_snap s ev k crashed st s' :
+  (match ev with
+   | ESnapDone _ => True
+   | EDeliver m => exists li lt c, m_body m = InstallSnap li lt c
+   | _ => False
+   end) ->
+  run_event_crash (settle s) ev k = Ret (crashed, st, s') ->
+  forall x, In x (n_commits s') -> In x (p_log (n_p s')).
+Proof.
+  intros Hev. unfold run_event_crash. set (s0 := with_budget (settle s) k).
+  destruct (run_event s0 ev) as [[st0 y] | c | p] eqn:E; try discriminate.
+  - intro H. inversion H. subst. simpl. assert (Hy : n_commits y = []).
+    { destruct ev; try contradiction; simpl in E; unfold wrap0 in E.
+      - destruct Hev as [li [lt [c Hb]]]. destruct (handle_msg s0 m) as [z | |] eqn:Ez; simpl in E; try discriminate.
+        inversion E. subst. apply (handle_msg_install_c s0 m li lt c y Hb Ez).
+      - destruct (snapshot_done s0 m) as [z | |] eqn:Ez; simpl in E; try discriminate. inversion E. subst.
+        apply (snapshot_done_c s0 m y Ez). }
+    rewrite Hy. intros x [].
+  - simpl. destruct (new_core (n_id s) (n_cfg s) p) as [z | |] eqn:En; simpl; try discriminate.
+    intro H. inversion H. subst. apply (SMSafetyNode.new_core_commits _ _ _ _ En).
 Qed.
